@@ -13,14 +13,18 @@ KINDS = {
     "C12": {"ctor", "panic", "search", "scan", "shape", "crash", "hang"},
 }
 MISMATCH_OPS = {
-    "C01": {"ins", "upd", "del", "get", "snap"},
-    "C02": {"scan", "snap"},
+    "C01": {"ins", "upd", "del", "get", "snap", "bulk"},
+    "C02": {"scan", "scand", "snap"},
     "C05": {"upd"},
     "C08": {"snap"},
     "C09": set(),
-    "C11": {"ins", "upd", "del", "get", "snap", "scan"},
-    "C12": {"new", "chk", "ins", "upd", "del", "get", "scan", "snap"},
+    "C11": {"ins", "upd", "del", "get", "snap", "scan", "scand", "bulk"},
+    "C12": {"new", "chk", "ins", "upd", "del", "get", "scan", "scand", "snap", "bulk"},
 }
+# very wide nodes (orders 2048 and up): which properties run which part of genseq.huge_plan
+HUGE_FOR = {"C01": "all", "C08": "all", "C11": "all", "C02": "2048"}
+# very long leaf chains (order 4, >= 300 000 keys): one history per integer type and str
+CHAIN_FOR = {"C02", "C09"}
 PROFILES = {
     "C01": ["map", "map", "drain", "shape"],
     "C02": ["scan", "scan", "drain"],
@@ -131,7 +135,8 @@ def hdr(lines):
 
 
 def stats_of(results):
-    st = dict(ops={}, heights={}, types={}, orders={}, panics=0, scans=0, scan_start_classes={})
+    st = dict(ops={}, heights={}, types={}, orders={}, panics=0, scans=0, scan_start_classes={}, slice_values=0,
+              max_node_width=0)
     for r in results:
         ls = r["lines"]
         t = hdr(ls)
@@ -141,7 +146,15 @@ def stats_of(results):
         for l, o in zip(ls, r["model"]):
             k = l.split()[0]
             st["ops"][k] = st["ops"].get(k, 0) + 1
+            if k in ("ins", "upd") and "[" in l:
+                st["slice_values"] += 1      # a []int64 stored or built by a callback (uncomparable value)
             if o.startswith("snap "):
+                if len(o) > 4000:
+                    # widest node of the snapshot: keys between `{` and `|` or `}`
+                    for seg in o.split("{")[1:]:
+                        w = seg.split("}", 1)[0].split("|", 1)[0].count(" ") + 1
+                        if w > st["max_node_width"]:
+                            st["max_node_width"] = w
                 d = 0
                 for ch in o[5:]:
                     if ch == "I":
@@ -213,23 +226,53 @@ def _check(pid, tier, sc, t0, extra_hook, sink=None):
         exhaustive_n = len(ex)
         hs = hs + ex
     large_n = 0
+    heavy = []          # (estimated cost, history): run first, one per shard
+    gen_of = {}         # id(history) -> the generator call that rebuilds it (recorded in replays)
     if pid in ("C01", "C02", "C08", "C09"):
         # wide nodes and tall trees: the states size-dependent code paths need
         plan = genseq.LARGE_QUICK if tier == "quick" else genseq.LARGE_THOROUGH * 3
         for i, (o, nk) in enumerate(plan):
             # one pointer-free and one pointer-carrying key type per size
-            hs.append(genseq.large_history(rng, ["i32", "i64", "u32", "u64"][(i + vlib.SEED) % 4], o, nk))
-            hs.append(genseq.large_history(rng, ["str", "cmp"][(i + vlib.SEED) % 2], o, nk))
+            heavy.append((nk * 3, genseq.large_history(rng, ["i32", "i64", "u32", "u64"][(i + vlib.SEED) % 4], o, nk)))
+            heavy.append((nk * 3, genseq.large_history(rng, ["str", "cmp"][(i + vlib.SEED) % 2], o, nk)))
         if tier == "thorough" and pid in ("C01", "C08"):
-            hs.append(genseq.large_history(rng, "u64", 1024, 530000))
-            hs.append(genseq.large_history(rng, "str", 64, 2300))
+            heavy.append((10 ** 7, genseq.large_history(rng, "u64", 1024, 530000)))
+            heavy.append((7000, genseq.large_history(rng, "str", 64, 2300)))
         large_n = 2 * len(plan)
+    huge_plan = []
+    if pid in HUGE_FOR:
+        # very wide nodes: orders 2048, 4096, 8192 (thorough: 16384 too), more than `order` keys
+        subs = [vlib.SEED] if tier == "quick" else [vlib.SEED, vlib.SEED + 1000003]
+        for sub in subs:
+            for ty, o in genseq.huge_plan(sub, tier):
+                if HUGE_FOR[pid] != "all" and str(o) != HUGE_FOR[pid]:
+                    continue
+                h = genseq.huge_history(sub, ty, o, tier)
+                gen_of[id(h)] = dict(fn="huge_history", seed=sub, type=ty, order=o, tier=tier)
+                heavy.append((len(h) * o // 400, h))
+                huge_plan.append("%s/%d" % (ty, o))
+    chain_plan = []
+    if pid in CHAIN_FOR:
+        # very long leaf chains: order 4, >= 300 000 ascending keys, every integer type and str
+        nkeys = 300000 if tier == "quick" else 600000
+        for ty in genseq.CHAIN_TYPES:
+            h = genseq.chain_history(vlib.SEED, ty, nkeys)
+            gen_of[id(h)] = dict(fn="chain_history", seed=vlib.SEED, type=ty, nkeys=nkeys, order=4)
+            heavy.append((nkeys // 3, h))
+            chain_plan.append("%s/4/%d" % (ty, nkeys))
     if extra_hook:
         hs = extra_hook(rng, tier) + hs
-    results = vlib.run_seq_parallel(bindir, sc, "main", hs)
+    # the heavy histories go first, the most expensive ones to shards of their own (history i
+    # runs in shard i mod shards); the second round is dealt out in the opposite direction
+    shards = vlib.NCPU * 2 if len(heavy) > vlib.NCPU // 2 else vlib.NCPU
+    heavy.sort(key=lambda ch: -ch[0])
+    heavy = heavy[:shards] + heavy[shards:][::-1]
+    hs = [h for _, h in heavy] + hs
+    results = vlib.run_seq_parallel(bindir, sc, "main", hs, shards=shards)
     first_mismatch = None
     seen_fail_keys = set()
-    for r in results:
+    # small failing inputs first: they make the better replays
+    for r in sorted(results, key=lambda r: len(r["lines"])):
         fs = relevant_failures(pid, r)
         for f in fs:
             kf = vlib.match_known(known, pid, r["lines"], f)
@@ -239,7 +282,7 @@ def _check(pid, tier, sc, t0, extra_hook, sink=None):
             key = (f["kind"], f.get("detail", "")[:40])
             if len(violations) < 3 and key not in seen_fail_keys:
                 seen_fail_keys.add(key)
-                violations.append(("oracle", make_replay(pid, bindir, sc, r, f)))
+                violations.append(("oracle", make_replay(pid, bindir, sc, r, f, gen_of.get(id(r["lines"])))))
         if not fs:
             m = relevant_mismatch(pid, r)
             if m and first_mismatch is None:
@@ -248,7 +291,11 @@ def _check(pid, tier, sc, t0, extra_hook, sink=None):
                     first_mismatch = (r, m)
     if first_mismatch:
         r, m = first_mismatch
-        tie_broken.append(dict(kind="correspondence", line=m[0], op=r["lines"][m[0]], impl=m[1], model=m[2], history=r["lines"][:m[0] + 1]))
+        tb = dict(kind="correspondence", line=m[0], op=r["lines"][m[0]], impl=m[1][:2000], model=m[2][:2000], history=r["lines"][:m[0] + 1])
+        if id(r["lines"]) in gen_of:
+            tb["generator"] = gen_of[id(r["lines"])]
+            tb["regenerate"] = REGEN % json.dumps(tb["generator"])
+        tie_broken.append(tb)
     searched = 0
     if tie_broken and not violations:
         # SEARCH: the proof or the tie no longer checks; look harder for a failing input
@@ -285,6 +332,10 @@ def _check(pid, tier, sc, t0, extra_hook, sink=None):
         nviol += 1
         rc = 1
     st = stats_of(results)
+    # also inside the distribution: props.both keeps only that part of the sequential half's
+    # coverage (as `sequential_distribution`) for the properties with a concurrent half
+    st.update(huge_order_histories=len(huge_plan), huge_order_plan=huge_plan, large_histories=large_n,
+              long_chain_histories=len(chain_plan), long_chain_plan=chain_plan)
     distinct = len({vlib.trace_hash(r["model"]) for r in results if nontrivial(r)})
     samples = [r["lines"][:12] for r in results[len(results) // 2: len(results) // 2 + 2]]
     cov = dict(obligations=proof["obligations"], discharged=proof["discharged"],
@@ -296,6 +347,10 @@ def _check(pid, tier, sc, t0, extra_hook, sink=None):
                disagreements_checked=sum(1 for r in results if r["mismatch"]),
                known_findings=sorted(known_hits), search_histories=searched, distribution=st,
                exhaustive_histories=exhaustive_n, large_histories=large_n,
+               huge_order_histories=len(huge_plan), huge_order_plan=huge_plan,
+               long_chain_histories=len(chain_plan), long_chain_plan=chain_plan,
+               long_chain_note=("order 4, one `bulk` load, full scan compared as a digest (count, first, last, FNV-1a) with the map oracle AND the Lean model, TryLock sweeps, operations on the last keys" if chain_plan else ""),
+               slice_values=st["slice_values"], max_node_width=st["max_node_width"],
                exhaustive_note=("every sequence of 5 insert/delete operations over 5 keys (i64 and Comparable with order-equivalent keys), every sequence of 7 over 3 keys at order 4, every sequence of 6 inserts over 4 string keys at order 2; each followed by a snapshot, all lookups and scans from every key" if exhaustive_n else ""),
                proof_problems=proof["problems"])
     assumptions = ["callbacks are pure; single goroutine", "Go slice semantics as modelled in Slice.lean"]
@@ -306,25 +361,80 @@ def _check(pid, tier, sc, t0, extra_hook, sink=None):
     return rc
 
 
-def make_replay(pid, bindir, sc, r, f):
+REGEN = "python3 -c 'import sys,json; sys.path.insert(0,\"/verif/lib\"); import genseq; print(\"\\n\".join(genseq.regen(json.loads(sys.argv[1]))))' '%s'"
+
+
+def impl_fails(bindir, sc, lines, kind):
+    """Does the implementation-side oracle still report a failure of this kind on `lines`?
+    (seqrun only: minimisation does not need the model, which is the slow side on wide nodes)"""
+    import subprocess
+    opsf, oraf = sc.path("min1.ops"), sc.path("min1.ora")
+    with open(opsf, "w") as fo:
+        fo.write("\n".join(lines) + "\n")
+    if os.path.exists(oraf):
+        os.remove(oraf)
+    with open(opsf) as fin:
+        subprocess.run([os.path.join(bindir, "seqrun"), "-oracle", oraf], stdin=fin, stdout=subprocess.DEVNULL, stderr=subprocess.DEVNULL)
+    if not os.path.exists(oraf):
+        return False
+    for l in open(oraf):
+        l = l.strip()
+        if l and json.loads(l).get("kind") == kind:
+            return True
+    return False
+
+
+HEAVY_LINES = 3000
+heavy_minimised = [0]
+
+
+def make_replay(pid, bindir, sc, r, f, gen=None):
     lines = r["lines"][: max(1, f["line"])]
     kind = f["kind"]
+    heavy = len(lines) > HEAVY_LINES
+    ntail = 1      # lines at the end that the bulk reductions keep (the failing op)
 
     def still(cand):
+        if kind != "crash":
+            return impl_fails(bindir, sc, cand, kind)
         rr = vlib.run_seq_batch(bindir, sc, "min", [cand])[0]
         return any(x["kind"] == kind for x in rr["failures"])
     try:
         if still(lines):
-            lines = vlib.minimise(bindir, sc, lines, still)
+            if heavy and kind in ("shape", "locks"):
+                # found by a thinned-out per-op sweep (`opt sweep k`): which ops are swept depends on
+                # the op count; a sweep at the end makes the failure independent of it
+                cand = lines + ["snap", "locks"]
+                if still(cand):
+                    lines, ntail = cand, 3
+            if heavy:
+                # a long prefix of a generated history: first drop the lines that do not change
+                # the tree (all of a kind at once; the failing line, the last one, stays)
+                for drop in (("get",), ("scan", "scand", "locks"), ("snap",), ("upd",)):
+                    cand = [l for l in lines[:-ntail] if l.split()[0] not in drop] + lines[-ntail:]
+                    if len(cand) < len(lines) and still(cand):
+                        lines = cand
+                # one long minimisation per check is enough (every attempt re-runs the prefix)
+                secs = 25 if heavy_minimised[0] == 0 else 4
+                heavy_minimised[0] += 1
+                lines = vlib.minimise(bindir, sc, lines, still, seconds=secs)
+            else:
+                lines = vlib.minimise(bindir, sc, lines, still)
         rr = vlib.run_seq_batch(bindir, sc, "min", [lines])[0]
         ff = [x for x in rr["failures"] if x["kind"] == kind]
         if ff:
             f = ff[0]
     except Exception as e:  # minimisation is best effort
         pass
-    return dict(property=pid, kind=kind, type=hdr(lines)[1], order=int(hdr(lines)[2]),
-                ops=lines, failing_op=f.get("op"), observed=f.get("detail"), site=f.get("site", ""),
-                seed=vlib.SEED, how="bin/check --replay <this file>")
+    rep = dict(property=pid, kind=kind, type=hdr(lines)[1], order=int(hdr(lines)[2]),
+               ops=lines, failing_op=f.get("op"), observed=(f.get("detail") or "")[:4000], site=f.get("site", ""),
+               seed=vlib.SEED, how="bin/check --replay <this file>")
+    if gen:
+        # `ops` is the (time-bounded) minimisation of a prefix of a generated history; this is
+        # the call that rebuilds the whole history
+        rep["generator"] = gen
+        rep["regenerate"] = REGEN % json.dumps(gen)
+    return rep
 
 
 CANARIES = [
@@ -363,7 +473,7 @@ def replay(path):
             return 1
         r = vlib.run_seq_batch(bindir, sc, "replay", [rep["ops"]])[0]
         for l, a, b in zip(r["lines"], r["impl"], r["model"] + [""] * len(r["lines"])):
-            print("%-24s impl: %-50s model: %s" % (l, a[:50], b[:50]))
+            print("%-24s impl: %-50s model: %s" % (l[:60], a[:50], b[:50]))
         for f in r["failures"]:
             print("ORACLE", json.dumps(f))
         return 1 if r["failures"] or r["mismatch"] else 0
